@@ -1062,3 +1062,15 @@ M("C11.listing_never_stored", ["C11"], "emitter/file/src/lib.rs",
   "        self.file_set = file_set;\n\n        Ok(())", "        Ok(())", "C11.R3:listing-total")
 M("C11.event_bytes_not_counted", ["C11"], "emitter/file/src/lib.rs",
   "        self.file_size_bytes += event_buf.len();\n", "", "C11.R1c:size-accounting")
+M("C12.http2_connection_not_driven", ["C12"], "emitter/otlp/src/client/http.rs",
+  "    tokio::task::spawn(async move {\n        let _ = conn.await;\n    });\n\n    Ok(HttpSender::Http2(sender))", "    tokio::task::spawn(async move {\n        let _ = conn;\n    });\n\n    Ok(HttpSender::Http2(sender))", "C12.R4:connection-driven")
+M("C12.request_size_not_increased", ["C12"], "emitter/otlp/src/client.rs",
+  "            self.current_request_size_bytes += incoming_size_bytes;\n", "", "C12.R2:request-size-accounting")
+M("C16.format_hook_returns_empty", ["C16"], "src/macro_hooks.rs",
+  "    tpl.render(props).write(&mut s).expect(\"infallible write\");\n", "", "C16.R2:__private_format")
+M("C18.filter_ignores_sampling_decision", ["C18"], "traceparent/src/lib.rs",
+  "                return incoming.traceparent.trace_flags().is_sampled();\n", "", "C18.R2:filter-returns-decision")
+M("C03.frame_enumerates_nothing", ["C03", "C19"], "src/platform/thread_local_ctxt.rs",
+  "                for_each(k.by_ref(), v.to_value())?;\n", "                let _ = (k, v, &mut for_each);\n", "R10:frame-yields-entries")
+M("C03.open_push_unwraps_empty_snapshot", ["C03"], "src/platform/thread_local_ctxt.rs",
+  "            span.props = Some(Arc::new(HashMap::new()));\n", "", "C03.R9:open_push-unwrap-guarded")
